@@ -1,7 +1,7 @@
 (* C01 rows for the games that sit on the Valve protocol: The Ship, Battalion
    1944 (the generic query plus a mapping) and America's Army: Proving Grounds
    style FFOW (its own request kind through the Valve challenge loop). *)
-From GD Require Import Base.Prelude Model.Strings Model.StrOps Model.Buffer Model.Net Model.Valve Model.Gamespy Model.Games.
+From GD Require Import Base.Prelude Model.Strings Model.StrOps Model.Buffer Model.Net Model.Valve Model.Gamespy Model.Games Model.View Model.Minecraft.
 From GD Require Import Proofs.BufferLemmas Proofs.BufInv Proofs.Msafe Proofs.ValveTotal Proofs.QuakeTotal Proofs.GamesTotal Proofs.GamespyTotal.
 From Coq Require Import ZifyBool ZifyNat ZifyN Lia.
 
@@ -52,7 +52,7 @@ Section WithBz.
   Lemma MokT_receive e protocol : MokT (receive bz e protocol).
   Proof. apply Mok_mono with (Q := Qv 0); [intros; exact I|]. apply Mok_receive. exact bz_safe. Qed.
   Lemma challenge_loop_at : forall fuel port e protocol kind pk n, (length (n_udp n) < fuel)%nat ->
-    MokAt (challenge_loop bz fuel port e protocol kind pk) n.
+    MokAt QT (challenge_loop bz fuel port e protocol kind pk) n.
   Proof.
     induction fuel as [|f IH]; intros port e protocol kind pk n Hf; [lia|].
     cbn [challenge_loop]. destruct pk as [k payload]. destruct (k =? 65); [|apply MokAt_ret].
@@ -67,7 +67,20 @@ Section WithBz.
     apply Mok_bind; [|intros data; apply Mok_lift, Rsafe_run, ffow_parse_safe].
     apply Mok_retry. unfold get_request_data_impl.
     apply Mok_bind; [apply MokT_send|intros _]. apply Mok_bind; [apply MokT_receive|intros pk].
-    apply MokT_of_at. intros n. apply challenge_loop_at. lia.
+    apply Mok_of_at. intros n. apply challenge_loop_at. lia.
+  Qed.
+
+  (* The Ship and Battalion 1944 keep the contract of the Valve query (C09 / C13 rows) *)
+  Theorem theship_query_okv port t : settings_ok t -> Mok (Qv port) (theship_query bz port t).
+  Proof.
+    intros Hs. unfold theship_query. apply Mok_bind; [|intros r; apply Mok_lift, safe_ship_of_valve].
+    apply valve_query_ok; [exact bz_safe|exact Hs|exact I].
+  Qed.
+  Theorem battalion_query_okv port : Mok (Qv port) (battalion_query bz port).
+  Proof.
+    unfold battalion_query.
+    apply Mok_bind; [|intros r; apply Mok_bind; [apply Mok_lift, safe_bat_overrides|intros r'; apply Mok_ret]].
+    apply valve_query_ok; [exact bz_safe|exact settings_ok_none|exact I].
   Qed.
 
   Theorem theship_total port t u tc sf : settings_ok t -> safe (fst (theship_query bz port t (net_init u tc sf))).
@@ -77,3 +90,45 @@ Section WithBz.
   Theorem ffow_total port t u tc sf : settings_ok t -> safe (fst (ffow_query bz port t (net_init u tc sf))).
   Proof. intros H. exact (proj1 (ffow_query_ok port t H (net_init u tc sf))). Qed.
 End WithBz.
+
+(* the contract of a query whose trace events all satisfy Qv: totality, A2S requests to the
+   query's port, reservations of at most 1 MiB, no TCP *)
+Definition valve_query_contract {A} (q : M A) (port : N) : Prop :=
+  forall u tc sf,
+    safe (fst (q (net_init u tc sf)))
+    /\ (forall p d, In (SendEv p d) (n_trace (snd (q (net_init u tc sf)))) -> p = port /\ valve_request d)
+    /\ Forall (fun k => k <= max_decompressed_size) (reserves (snd (q (net_init u tc sf))))
+    /\ (forall p c, ~ In (NewTcp p c) (n_trace (snd (q (net_init u tc sf))))).
+Lemma valve_contract_of_mok {A} (q : M A) port : Mok (Qv port) q -> valve_query_contract q port.
+Proof.
+  intros H u tc sf. destruct (H (net_init u tc sf)) as [H1 [_ [evs [H3 H4]]]].
+  cbn [net_init n_trace] in H3. rewrite app_nil_r in H3. split; [exact H1|]. unfold reserves. rewrite H3.
+  split; [|split].
+  - intros p d Hin. rewrite Forall_forall in H4. exact (H4 _ Hin).
+  - exact (forall_reserves port evs H4).
+  - intros p c Hin. rewrite Forall_forall in H4. exact (H4 _ Hin).
+Qed.
+Theorem theship_contract bz : (forall p s, safe (bz p s)) -> forall port t, settings_ok t -> valve_query_contract (theship_query bz port t) port.
+Proof. intros Hbz port t Hs. apply valve_contract_of_mok, theship_query_okv; assumption. Qed.
+Theorem battalion_contract bz : (forall p s, safe (bz p s)) -> forall port, valve_query_contract (battalion_query bz port) port.
+Proof. intros Hbz port. apply valve_contract_of_mok, battalion_query_okv; assumption. Qed.
+
+(* Savage 2, Mindustry, Minecraft Bedrock: one request, one reply *)
+Theorem savage2_contract port t : settings_ok t -> udp_query_contract (savage2_query port t) port (fun d => d = [1]).
+Proof.
+  intros Hs. apply contract_of_mok. unfold savage2_query.
+  apply Mok_bind; [apply Mokq_udp_new; exact Hs|intros _]. apply Mok_bind; [apply Mokq_send; reflexivity|intros _].
+  apply Mok_bind; [apply Mokq_recv|intros d]. apply Mok_lift, Rsafe_run, savage2_parse_safe.
+Qed.
+Theorem mindustry_contract port t : settings_ok t -> udp_query_contract (mindustry_query port t) port (fun d => d = [254; 1]).
+Proof.
+  intros Hs. apply contract_of_mok. unfold mindustry_query, mindustry_attempt. apply Mok_retry.
+  apply Mok_bind; [apply Mokq_udp_new; exact Hs|intros _]. apply Mok_bind; [apply Mokq_send; reflexivity|intros _].
+  apply Mok_bind; [apply Mokq_recv|intros d]. apply Mok_lift, Rsafe_run, mindustry_parse_safe.
+Qed.
+Theorem bedrock_contract port t : settings_ok t -> udp_query_contract (Minecraft.query_bedrock port t) port (fun d => d = Minecraft.bedrock_ping).
+Proof.
+  intros Hs. apply contract_of_mok. unfold Minecraft.query_bedrock, Minecraft.bedrock_info_impl.
+  apply Mok_bind; [apply Mokq_udp_new; exact Hs|intros _]. apply Mok_retry. apply Mok_bind; [apply Mokq_send; reflexivity|intros _].
+  apply Mok_bind; [apply Mokq_recv|intros d]. apply Mok_lift, Rsafe_run, bedrock_parse_safe.
+Qed.
